@@ -43,7 +43,6 @@ ERR_CLASSES = [
 
 EVERY = T(6, 2)
 BOUNDARY = T(3, 12)
-SCENARIOS = "all"
 
 
 def load_known():
@@ -278,12 +277,22 @@ class GenesisCheck:
             vlib.run_harness("genesis", "roundtrip", out, cfg=f"rec={rec},every={every},boundary={boundary}", timeout=3000)
             return out
 
-        scn = os.path.join(work, "gt-scenarios.ndjson")
+        # the scripted scenarios, one process each
+        p = subprocess.run([vlib.harness_bin("genesis"), "scenario", "-out", os.devnull, "-cfg", "name=list"],
+                           capture_output=True, text=True, timeout=120)
+        names = [n for n in p.stdout.split() if n]
+        if p.returncode != 0 or not names:
+            raise Inconclusive("harness-genesis scenario list failed: " + p.stderr[-500:])
+
+        def scn(name):
+            out = os.path.join(work, f"gt-scn-{name}.ndjson")
+            vlib.run_harness("genesis", "scenario", out, cfg=f"name={name}", timeout=3000)
+            return out
+
         with ThreadPoolExecutor(max_workers=max(1, vlib.NCPU - 2)) as ex:
-            fs = ex.submit(vlib.run_harness, "genesis", "scenario", scn, cfg=f"name={SCENARIOS}", timeout=3000)
+            fs = [ex.submit(scn, n) for n in names]
             traces = list(ex.map(one, list(enumerate(recs))))
-            fs.result()
-        traces.append(scn)
+            traces += [f.result() for f in fs]
         t3 = time.time()
         allf = os.path.join(work, "all.ndjson")
         with open(allf, "w") as out:
@@ -296,7 +305,7 @@ class GenesisCheck:
         log(f"[time] mc {t1-t0:.0f}s, record {t2-t1:.0f}s, round trips {t3-t2:.0f}s, trace validation {t4-t3:.0f}s")
         ex_ = res["exercised"]
         nrt = ex_.get("asis", 0) + ex_.get("zeroheight", 0)
-        log(f"[trace] {ntr} histories ({len(recs)} recorded + scenarios) / {res['lines']} events validated; "
+        log(f"[trace] {ntr} histories ({len(recs)} recorded + {len(names)} scenarios) / {res['lines']} events validated; "
             f"round trips={nrt} continuations={ex_.get('continuation', 0)}; drift={res['drift']}; "
             f"clause failures: new={len(viol)} known={len(hits)}")
         for d in res["drift_first"][:3]:
